@@ -21,3 +21,9 @@ func VHIter() {
 	s, pre := VGStack()
 	containers.VIterStep(func() containers.IteratorWithIndex[int] { return s.Iterator() }, pre, s)
 }
+
+// VHSnap: returned slices are snapshots, argument slices are copied, GetSortedValues leaves the container alone (C16).
+func VHSnap() {
+	c, _ := VGStack()
+	containers.VSnapStep(containers.VSnap{C: c, Mutate: []func(){c.Clear, func() { c.Push(v.Int("m")) }, func() { c.Pop() }}})
+}
